@@ -73,3 +73,8 @@ add("C06","exploration",
  "Held on the runs counted in the evidence (fleet sizes, files per server, limits, distinct aggregator event orders observed).",
  "Trusted: hook call sites for attribution only (the CSV decides); c06.agg-early-exit is accepted only with the trace pattern, no excess, and deficits on servers showing it.",
  "DESIGN.md §2 C06")
+add("C04","exploration",
+ "runtime monitoring: the real tail reader follows real files in worker processes while the harness appends through seeded write() chunkers, starting only once the reader's descriptor offset (/proc fdinfo) shows it is positioned; delivered lines (content, running number, transmission percentage) are checked against the appended lines; real dtail (serverless and over SSH) for a sample",
+ "Held on the follows counted in the evidence (chunkers x sizes x queue regimes; drops actually provoked in regime b are counted).",
+ "Trusted: /proc fdinfo offsets; regime a = queue can never be full; regime b without filter; append-only writers.",
+ "DESIGN.md §2 C04")
